@@ -280,8 +280,9 @@ NO_RECURSE = {"socket_peers"}   # a fileno index: its size is bounded by descrip
 CONTAINERS = (dict, list, set, frozenset, collections.deque, tuple)
 
 
-def measure(sc):
-    """Structurally discovered container sizes + live threads + unclosed sockets (documented windows excluded)."""
+def measure(sc, stats=False):
+    """Structurally discovered container sizes + live threads + unclosed sockets (documented windows excluded).
+    stats=True: the statistics records are measured as well (for runs long enough to have filled their fixed-size windows)."""
     nw = sc.nw
     node = nw.node
     out = collections.Counter()
@@ -301,6 +302,7 @@ def measure(sc):
         if isinstance(obj, CONTAINERS):
             if isinstance(obj, collections.deque) and obj.maxlen is not None:
                 out[path + "(bounded deque: capped)"] += min(len(obj), 0)
+                return          # a fixed-size window: neither its length nor what its (at most maxlen) entries hold is growth
             elif not isinstance(obj, tuple):
                 out[path] += len(obj)
             items = obj.values() if isinstance(obj, dict) else obj
@@ -315,7 +317,7 @@ def measure(sc):
         if not (mod.startswith("diameter.node") or mod.startswith("mc.")):
             return
         for k, v in d.items():
-            if k in SKIP_ATTRS or k.startswith("_sim") or k == "nw":
+            if (k in SKIP_ATTRS and not (stats and k in ("statistics", "counters", "statistics_history"))) or k.startswith("_sim") or k == "nw":
                 continue
             if k in NO_RECURSE:
                 out[f"{path}.{k}"] += len(v)
@@ -337,7 +339,7 @@ def measure(sc):
     return {k: v for k, v in out.items()}
 
 
-def run_sequence(names, reps, policy=None):
+def run_sequence(names, reps, policy=None, stats=False):
     """Fresh node with the standing connection; each named cycle repeated `reps` times in turn; returns the measure.
     policy: thread kind that runs only when nothing else can (the kernel's second scheduling policy), or None."""
     sc = scenario.Scenario(CFG, max_socks=1, start_plan=["refused"], app_timeout=2)
@@ -363,7 +365,7 @@ def run_sequence(names, reps, policy=None):
                 raise sk.HarnessError("the standing connection was lost during the cycles")
             sc.apply(("tick", 1))
         fails = nw.thread_failures()
-        m = measure(sc)
+        m = measure(sc, stats)
         return m, fails
     except sk.Livelock as e:
         return {"livelock": 1}, [("livelock", str(e))]
@@ -621,8 +623,9 @@ def stop_residue(args):
 def work(args):
     names, lo, hi = args[:3]
     policy = args[3] if len(args) > 3 else None
-    m_lo, f_lo = run_sequence(names, lo, policy)
-    m_hi, f_hi = run_sequence(names, hi, policy)
+    stats = args[4] if len(args) > 4 else False
+    m_lo, f_lo = run_sequence(names, lo, policy, stats)
+    m_hi, f_hi = run_sequence(names, hi, policy, stats)
     grown = {k: (m_lo.get(k, 0), m_hi.get(k, 0)) for k in set(m_lo) | set(m_hi) if m_lo.get(k, 0) != m_hi.get(k, 0)}
     return names, lo, hi, grown, f_lo + f_hi, sum(m_hi.values()), policy
 
@@ -636,6 +639,9 @@ def run(tier):
     # every cycle also under the second scheduling policy: the I/O thread runs only when no other thread can
     jobs += [((n,), lo, hi, "_handle_connections") for n in names]
     jobs += [((n,), 1, 3, pol) for n in EXTRA_CYCLES for pol in (None, "_handle_connections")]
+    # hours of sparse traffic (a watchdog exchange every 4 s, 27 and 53 minutes): the statistics records have filled their fixed-size
+    # windows long before the shorter run ends, so their number is the same after both
+    jobs += [(("DWR-from-node",), 400, 800, None, True), (("DWR-from-peer", "DWR-from-node"), 300, 600, None, True)]
     # every ordered pair of cycles: the second kind of activity must not resurrect growth left dormant by the first
     pairs = list(itertools.permutations(names, 2))
     jobs += [(p, 2, 6) for p in pairs]
@@ -648,7 +654,7 @@ def run(tier):
     results = common.pmap(work, jobs, chunksize=1)
     single_growth = {}      # cycle -> set of measure keys that grow when it is repeated alone
     for names_, lo_, hi_, grown, fails, size, pol_ in results:
-        if len(names_) == 1:
+        if len(names_) == 1 and lo_ < 100:
             single_growth.setdefault(names_[0], set()).update(grown)
     for names_, lo_, hi_, grown, fails, size, pol_ in results:
         total_cycles += (lo_ + hi_) * len(names_)
